@@ -1309,6 +1309,8 @@ def c13_moments(fmt, r):
     """(E, V, conditioning) of a result [calls, nz, fin, sum, sumsq] in exact arithmetic; None if not usable"""
     n = r[0]; s, q = parse_tok(r[3]), parse_tok(r[4])
     if n < 2 or not isnum(s) or not isnum(q): return None
+    # the intermediates of variance() and create_result() (sum^2, calls x sumsq) must stay inside the format
+    if s * s > fmt.max / 4 or abs(q) * n > fmt.max / 4: return None
     e = s / n; v = (q / n - e * e) / (n - 1)
     if v <= 0: return None
     kappa = (q / n) / (v * (n - 1))
